@@ -14,9 +14,21 @@
 // "new" is not fixed by the case: the oracle watches the node's head after every event and evaluates
 // the clause whenever the head moves to a block that does not descend from the previous head.
 //
+// Why an observer: with 3 deputies a deputy signs every foreign block that extends what it signed last, and
+// miner + own signature = 2 = ceil(2*3/3) makes that block stable at once, so a deputy never holds two
+// unconfirmed foreign branches. An observer signs nothing: forks stay unconfirmed until the case delivers
+// a confirm packet.
+//
 // In the second mode ("dep") the node under test is deputy 0 itself: it mines its own branch from its
 // pool (that is the only way a deputy of a 3-deputy chain keeps an unconfirmed fork: it does not sign
 // foreign siblings of a block it signed), loses against the foreign branch Y, and mines again.
+//
+// State on /repo HEAD c05147d: the check reports (1) tx-of-new-fork-pending-after-switch/pending=sub-tx,on-fork=box
+// and .../pending=box,on-fork=box — the engine deletes only the top-level transactions of the new fork, a
+// pooled sub-transaction (or overlapping box) of a box that the new fork executed stays pending; candidate
+// repair fixes/01; (2) abandoned-tx-not-put-back/sub-tx/learned-from-blocks-only — index entries left behind
+// when a pooled box is deleted through one of its sub-transactions make AddTxs refuse the box's other
+// sub-transaction when a later switch wants to put it back; candidate repair fixes/02.
 package main
 
 import (
@@ -1165,9 +1177,11 @@ func fsAssignments(thorough bool, s fsSchedule, emit func(place map[string]strin
 	if s.variant {
 		return
 	}
-	for i, p := range ends {
-		for _, q := range ends[i:] {
-			one(map[string]string{"t1": p, "t2": q}, false)
+	if thorough || s.base == "S" {
+		for i, p := range ends {
+			for _, q := range ends[i:] {
+				one(map[string]string{"t1": p, "t2": q}, false)
+			}
 		}
 	}
 	if !thorough && !deep && s.dx+s.dy <= 3 && s.events[len(s.events)-1] == "cm1" {
@@ -1310,9 +1324,15 @@ func fsWorker(i, n int) {
 	out := &fsOut{counters: map[string]int64{}, tags: map[string]bool{}}
 	idx := 0
 	stopped := false
+	// development aid: VERIF_C18_RANGE=from:to runs the cases with these positions in the enumeration only
+	from, to := 0, 1<<62
+	if rg := os.Getenv("VERIF_C18_RANGE"); rg != "" {
+		fmt.Sscanf(rg, "%d:%d", &from, &to)
+		r.NotExhaustive("part C: only the cases " + rg + " were run (VERIF_C18_RANGE)")
+	}
 	fsEnumerate(core.Thorough(), func(c fsCase) {
 		idx++
-		if (idx-1)%n != i || stopped {
+		if (idx-1)%n != i || stopped || idx < from || idx > to {
 			return
 		}
 		if core.OutOfTime() {
